@@ -167,8 +167,10 @@ def build(variant, outdir):
     if omit:
         # ... and, in the same slice, glibc's strictest fortification: object sizes the compiler derives from
         # allocator attributes are checked at run time (a wrong alloc_size attribute aborts here)
-        simflags += ["-DH3_OMIT_AUXILIARY_SAFETY_CHECKS=1", "-U_FORTIFY_SOURCE", "-D_FORTIFY_SOURCE=3"]
-        refflags += ["-DH3_OMIT_AUXILIARY_SAFETY_CHECKS=1", "-U_FORTIFY_SOURCE", "-D_FORTIFY_SOURCE=3"]
+        # H3_COVERAGE_TEST is the project's own switch for this configuration (cmake ENABLE_COVERAGE): it implies
+        # H3_OMIT_AUXILIARY_SAFETY_CHECKS and makes the testcase() coverage counter live
+        simflags += ["-DH3_COVERAGE_TEST=1", "-U_FORTIFY_SOURCE", "-D_FORTIFY_SOURCE=3"]
+        refflags += ["-DH3_COVERAGE_TEST=1", "-U_FORTIFY_SOURCE", "-D_FORTIFY_SOURCE=3"]
     if cov:
         simflags += ["-fsanitize-coverage=trace-pc-guard,pc-table", "-fno-pic"]
         refflags += ["-fno-pic"]
